@@ -14,8 +14,8 @@ Definition cfg_nosel (cf : cfg) : cfg :=
    a sample without coordinates is treated exactly as a masked one.  It is rendered in the C12 model as a masked sample
    (selection column always consulted); an undefined coordinate reads TEST = 1.234e30, so that such a sample sorts last
    and the 1-D test "x1(jech) - x1(iech) > maxdist" breaks on it, as in the code.
-   One place of the code does NOT follow this rendering yet: the first loop of Vario::_getStatistics (global mean, consumed by
-   the Poisson estimator only) has no _hasCoordinates test (check key vario:undefined-coordinate:mean, fixes/C05_7.patch). *)
+   (The first loop of Vario::_getStatistics - global mean, consumed by the Poisson estimator - follows it as well since
+   fixes/C05_7.patch; the check keeps the witness under key vario:undefined-coordinate:mean.) *)
 Definition big_test : Q := inject_Z (1234 * 10 ^ 27).
 Definition vcfg (cf : cfg) : cfg :=
   {| c_calc := c_calc cf; c_hasSel := true; c_hasW := c_hasW cf; c_dateLoop := c_dateLoop cf;
